@@ -6,6 +6,7 @@ package tea
 import (
 	"fmt"
 	"io"
+	"sync"
 
 	"github.com/muesli/cancelreader"
 )
@@ -15,5 +16,20 @@ func newInputReader(r io.Reader, _ bool) (cancelreader.CancelReader, error) {
 	if err != nil {
 		return nil, fmt.Errorf("bubbletea: error creating cancel reader: %w", err)
 	}
-	return cr, nil
+	return &closeOnceReader{CancelReader: cr}, nil
+}
+
+// closeOnceReader closes the underlying reader only once. The program's
+// shutdown runs more than once (Kill, then Run's own), and the reader owns
+// raw file descriptors: closing them a second time can close a descriptor
+// that has been handed out to somebody else in between.
+type closeOnceReader struct {
+	cancelreader.CancelReader
+	once sync.Once
+	err  error
+}
+
+func (r *closeOnceReader) Close() error {
+	r.once.Do(func() { r.err = r.CancelReader.Close() })
+	return r.err
 }
